@@ -414,6 +414,14 @@ _amend("C18", "text", "(R18.1-R18.9, DESIGN.md §4 C18):", "(R18.1-R18.11, DESIG
 _amend("C02", "text", "R02.11: every binding of a scope takes its name from the generator", "R02.11: every binding of a scope takes its name from the generator; R02.12 reports a known finding in the pinned parser: the name of a class expression is in no scope")
 _amend("C03", "text", "Decides eighteen local clauses (R03.1-R03.18 incl. R03.5c-f,", "Decides nineteen local clauses (R03.1-R03.19 incl. R03.5c-f,")
 _amend("C19", "text", "(R19.1-R19.23,", "(R19.1-R19.24,")
+# thirteenth pass
+_amend("C04", "text", "(R04.1-R04.24,", "(R04.1-R04.25,")
+_amend("C05", "text", "Decides (R05.1-R05.22,", "Decides (R05.1-R05.23,")
+_amend("C08", "text", "Decides twelve shape clauses only (R08.1-R08.12,", "Decides thirteen shape clauses only (R08.1-R08.13,")
+_amend("C10", "text", "(R10.1-R10.19,", "(R10.1-R10.21,")
+_amend("C10", "text", "Decides nineteen structural clauses", "Decides twenty-one structural clauses")
+_amend("C11", "text", "(R11.1-R11.11 with R11.9a-d,", "(R11.1-R11.12 with R11.9a-d,")
+_amend("C17", "text", "(no borrowing from a related name).", "(no borrowing from a related name); no write goes through bytes that belong to a package-level table (R17.tablestate = R13.2, SSA).")
 
 if __name__ == "__main__":
     main()
